@@ -46,7 +46,7 @@ def run(ctx):
     rng = ctx.rng
     ctx.count("spec_selfcheck_cases", S.selfcheck())
     ctx.rule = ("case = (table of 1-5 columns of the 20 scalar types, each encrypted with its own 256-bit key with p=0.6, policy IV fixed or random, "
-                "1-4 rows of boundary-pool values with None (p=0.2) / UNSET (p=0.05 at v4+), bound positionally or by name, protocol 3-5, "
+                "1-4 rows of boundary-pool values, values re-reading the byte image of another cell of the result as their own type (p=0.35), None (p=0.2) / UNSET (p=0.05 at v4+), bound positionally or by name, protocol 3-5, "
                 "result with inline metadata or NO_METADATA + prepared result metadata); distinct by (types, encrypted flags, values, pv); "
                 "non-trivial = at least one encrypted column")
     ctx.assume("add_column's type-name argument can only name unparameterized types: collections / tuples / UDTs are not generated; counters are excluded")
@@ -91,9 +91,12 @@ def run(ctx):
         try:
             policy = AES256ColumnEncryptionPolicy(iv=iv) if iv is not None else AES256ColumnEncryptionPolicy()
             keys = {}
+            # keys come from a per-table pool of 1..ncols keys: one key per column, one key for the whole table (the usual set-up)
+            # and everything in between
+            key_pool = [bytes(rng.getrandbits(8) for _ in range(32)) for _ in range(rng.choice([1, 1, 2, ncols]))]
             for nm, t, e in zip(names, types, enc_flags):
                 if e:
-                    keys[nm] = bytes(rng.getrandbits(8) for _ in range(32))
+                    keys[nm] = rng.choice(key_pool)
                     policy.add_column(ColDesc(ks, table, nm), keys[nm], t[0])
             # the reader may be another policy object with the same keys and an IV of its own (another process, a restart): the IV
             # that matters for reading is the one stored in front of each cell
@@ -123,6 +126,7 @@ def run(ctx):
             ctx.count("results_read_by_a_second_policy_object_with_its_own_iv")
         nrows = rng.randint(1, 4)
         rows_canon, rows_cells = [], []
+        images = []          # (type, serialized plaintext) of every value generated for this result so far
         wit0 = {"pv": pv, "columns": [(nm, t[0], "encrypted" if e else "plain") for nm, t, e in zip(names, types, enc_flags)]}
         bad = False
         for _r in range(nrows):
@@ -139,9 +143,30 @@ def run(ctx):
                     dvals.append(UNSET_VALUE)
                     states.append('unset')
                     continue
+                canary = _r == 0 and t[0] in ('bigint', 'int', 'smallint', 'tinyint', 'varint')
+                if images and not canary and rng.random() < 0.35:
+                    # a value of THIS column's type whose serialization is byte-identical to a value already in the result (same
+                    # row or an earlier row, any column): the byte image is read back by the reference decoder as this type and
+                    # kept when it is a canonical value of it (re-encodes to the same bytes, representable as a driver object)
+                    st, img = rng.choice(images)
+                    try:
+                        tv = S.dec(t, img, pv)
+                        okv = tv is not None and S.enc(t, tv, pv) == img and (t[0] != 'timestamp' or G.TS_MIN_MS <= tv <= G.TS_MAX_MS)
+                        if okv:
+                            dv = G.to_driver(rng, t, tv)
+                    except Exception:
+                        okv = False
+                    if okv:
+                        canon.append(tv)
+                        dvals.append(dv)
+                        states.append('val')
+                        images.append((t[0], img))
+                        if st != t[0]:
+                            ctx.count("values_sharing_a_byte_image_with_a_value_of_another_type")
+                        continue
                 for _try in range(20):
                     v = G.gen_scalar(rng, t[0])
-                    if _r == 0 and t[0] in ('bigint', 'int', 'smallint', 'tinyint', 'varint'):
+                    if canary:
                         # canary row: small integers first, so that a build that hands an int to bytes() (allocating that many
                         # bytes) is detected on this table before a huge value is bound
                         v = rng.randint(0, 64)
@@ -153,6 +178,10 @@ def run(ctx):
                 canon.append(v)
                 dvals.append(G.to_driver(rng, t, v))
                 states.append('val')
+                try:
+                    images.append((t[0], S.enc(t, v, pv)))
+                except (S.Undefined, S.SpecError):
+                    pass
             wit = dict(wit0, row=[repr(v)[:80] for v in canon], states=states)
             ctx.case(repr((pv, [t[0] for t in types], enc_flags, [G.canon_key(t, v) for t, v in zip(types, canon)], states)), nontrivial=any(enc_flags))
             arg = dict(zip(names, dvals)) if rng.random() < 0.4 else list(dvals)
@@ -219,6 +248,13 @@ def run(ctx):
                 break
         if bad:
             continue
+        by_cipher = {}
+        for cells in rows_cells:
+            for c, t, e in zip(cells, types, enc_flags):
+                if e and c is not None:
+                    by_cipher.setdefault(c, set()).add(t[0])
+        if any(len(ts) > 1 for ts in by_cipher.values()):
+            ctx.count("results_with_identical_ciphertext_in_columns_of_different_types")
         # ---- the server's answer, decoded by the real handler with the policy
         no_md = rng.random() < 0.3
         body = F.body_result_rows(pv, wire_cols, rows_cells, no_metadata=no_md, global_spec=rng.random() < 0.7)
@@ -298,7 +334,9 @@ def run(ctx):
     ctx.floor_distinct = 3000 if ctx.quick else 100000
     fl = {"encrypted_values_decrypt_to_reference": 5000, "plain_values_equal": 3000, "result_bodies_decoded": 500, "encrypted_cells_equal": 2000,
           "nulls_bound_encrypted_column": 500, "encode_and_encrypt_equal": 300,
-          "results_read_by_a_second_policy_object_with_its_own_iv": 200}
+          "results_read_by_a_second_policy_object_with_its_own_iv": 200,
+          "values_sharing_a_byte_image_with_a_value_of_another_type": 300,
+          "results_with_identical_ciphertext_in_columns_of_different_types": 100}
     for t in TYPES:
         fl["encrypted_type:" + t] = 50
     ctx.floor_counters = fl
